@@ -8,6 +8,8 @@ import (
 	"regexp"
 	"strings"
 	"sync"
+
+	"verif/harness/strace"
 )
 
 // Event is one record of the unified trace: a command the harness is about to write (send) or a
@@ -57,11 +59,11 @@ type Issue struct {
 
 var (
 	reBest   = regexp.MustCompile(`^bestmove ([a-h][1-8][a-h][1-8][qrbn]?|0000)( ponder [a-h][1-8][a-h][1-8][qrbn]?)?$`)
-	reInfo   = regexp.MustCompile(`^info depth \d+ (score (cp|mate) -?\d+ nodes \d+ time \d+ hashfull \d+ pv( [a-h][1-8][a-h][1-8][qrbn]?)*|nodes \d+)\s*$`)
 	reMock   = regexp.MustCompile(`^info string sid=(\d+) seq=(\d+) pad=x* crc=([0-9a-f]{8})$`)
 	reFEN    = regexp.MustCompile(`^[pnbrqkPNBRQK1-8/]+ [wb] (-|[KQkq]+) (-|[a-h][1-8]) -?\d+ \d+$`)
-	reEval   = regexp.MustCompile(`^(cp -?\d+|mate -?\d+)$`)
-	reOption = regexp.MustCompile(`^option name \S+ type (spin default -?\d+ min -?\d+ max -?\d+|check default (true|false))$`)
+	reEval   = regexp.MustCompile(`^((cp|mate) )?-?\d+(\.\d+)?$`)
+	reOption = regexp.MustCompile(`^option name .+ type (check|spin|combo|button|string)( .*)?$`)
+	reID     = regexp.MustCompile(`^id (name|author) \S.*$`)
 )
 
 // Stats is what the checker observed.
@@ -146,8 +148,13 @@ func Check(ev []Event, finished bool) (issues []Issue, st Stats) {
 			nextSeq = seq + 1
 		case strings.HasPrefix(l, "info "):
 			st.RealInfos++
-			if !reInfo.MatchString(l) {
+			// any line of the UCI info grammar is a whole line; which fields it carries is the engine's choice
+			in, ok := strace.ParseInfo(l)
+			if !ok {
 				add("torn-or-malformed-info-line", "event %d: %q", i, l)
+			}
+			if in.Text {
+				continue // free text may be printed at any time (e.g. in answer to setoption)
 			}
 			if !searching {
 				add("info-outside-its-search-window", "event %d: %q received while no search is outstanding (go sent=%d, bestmove received=%d)", i, l, st.Gos, st.Bestmoves)
@@ -158,7 +165,7 @@ func Check(ev []Event, finished bool) (issues []Issue, st Stats) {
 				add("uciok-without-uci", "event %d", i)
 			}
 			uciOpen--
-		case strings.HasPrefix(l, "id name ") || l == "id author Paul Sonkoly" || reOption.MatchString(l):
+		case reID.MatchString(l) || reOption.MatchString(l):
 			if uciOpen <= 0 {
 				add("identification-line-without-uci", "event %d: %q", i, l)
 			}
